@@ -1,4 +1,5 @@
 import PgsVerif.Model.GoTypes
+import PgsVerif.Props.C17
 import PgsVerif.Generated.Code_context_optionPackage
 import PgsVerif.Generated.Code_context_PackageName
 import PgsVerif.Generated.Code_context_resolveGoPackageOption
@@ -143,6 +144,32 @@ theorem tie_PackageName_import_path (snake : Bytes → Bytes) (env : PkgEnv) (ip
     cases ip with
     | nil => exact absurd rfl hne
     | cons c cs => by_cases hdg : GoNames.isDigitB c = true <;> simp [hdg, underscore]
+
+/-! ### the C17 package theorems, on the translated functions -/
+
+/-- **package name**: what the translated `PackageName` answers for a file with a declared go_package is the package name
+    protoc-gen-go gives it (the three spellings; last element usable) -/
+theorem C17_package_name_translated (snake : Bytes → Bytes) (env : PkgEnv) (opt : Bytes)
+    (hM : C19.get env.params (([77] : Bytes) ++ env.input) = none ∨ env.buildTarget = true)
+    (hopt : env.goPackage = opt) (hne : opt ≠ [])
+    (hsemi : ∀ i, lastIndexOf semicolon opt = some i → firstIndexOf semicolon opt = some i)
+    (hlast : usable (match firstIndexOf semicolon opt with
+                      | some i => opt.drop (i+1)
+                      | none => match lastIndexOf slash opt with | some i => opt.drop (i+1) | none => opt)) :
+    context_PackageName snake env = Protogen.packageName opt := by
+  rw [tie_PackageName_declared snake env opt hM hopt hne]
+  exact C17_package_name env.input opt hsemi hlast
+
+/-- **import path**: the path component of the translated `optionPackage` is protoc-gen-go's import path -/
+theorem C17_import_path_translated (snake : Bytes → Bytes) (env : PkgEnv) (opt : Bytes)
+    (hM : C19.get env.params (([77] : Bytes) ++ env.input) = none ∨ env.buildTarget = true)
+    (hopt : env.goPackage = opt) (hne : opt ≠ [])
+    (hsemi : ∀ i, lastIndexOf semicolon opt = some i → firstIndexOf semicolon opt = some i ∧ opt.take i ≠ [])
+    (hnone : lastIndexOf semicolon opt = none → firstIndexOf semicolon opt = none) :
+    (context_optionPackage snake env).1 = Protogen.importPath env.input opt := by
+  have hr : context_resolveGoPackageOption env = opt := by rw [tie_resolve_own env (hopt ▸ hne), hopt]
+  rw [tie_optionPackage_declared snake env opt hM hr hne]
+  exact C17_import_path env.input opt hsemi hnone hne
 
 /-- the pattern the source compiles: one rune that is not an ASCII letter or digit (no repetition: one `_` per rune) -/
 theorem tie_pattern : nonAlphaNumPattern = "[^a-zA-Z0-9]" := by decide
